@@ -26,6 +26,7 @@ RULES_DOC["R7"] = "a scheduler is marked used = ABTI_SCHED_MAIN before it is ins
 RULES_DOC["X5"] = common.X5_DOC
 RULES_DOC["R8"] = "rank list insertion: on every path of xstream_add_xstream_list the inserted stream's forward link is assigned, and its backward link is assigned unless it becomes the head (a stream re-inserted by ABT_xstream_set_rank carries no stale link: no cycle, no walk into freed memory)"
 RULES_DOC["R9"] = "= C06.R1/R3/R4: the callback that suspends a ULT for a main-scheduler replacement counts it on the pool it belongs to after request handling (a stream whose pool count is off by one can never be joined, its rank is never returned)"
+RULES_DOC["R10"] = "the thread-local 'current stream' pointer is cleared wherever the stream it names is given up: after ABT_finalize freed the primary stream, and when a stream's OS thread leaves its root loop (an OS thread that once was a stream must be an external thread afterwards)"
 RULES_DOC.update({
     "R1": "stream list mutations, rank stores, num_xstreams updates and list scans hold xstream_list_lock",
     "R2": "duplicate scan and insertion in one critical section; duplicate arm: release, return FALSE, list untouched",
@@ -484,6 +485,28 @@ def rule_R8(P, rep):
     rep.need(n >= 3, "xstream_add_xstream_list: %d paths" % n)
 
 
+def rule_R10(P, rep):
+    n = 0
+    for fn, file, after in (("finailze_library", "src/global.c", "ABTI_xstream_free"),
+                            ("xstream_launch_root_ythread", "src/stream.c", None)):
+        F = P.fn(fn, file)
+        sets = [i for _b, i in F.calls("ABTI_local_set_xstream")]
+        clears = [i for i in sets if F.nodes[F.strip(F.nodes[i]["a"][0])].get("cv") == 0]
+        if after is not None:
+            starts = [i for _b, i in F.calls(after)]
+            rep.need(starts, "%s does not call %s" % (fn, after))
+        else:
+            starts = [i for i in sets if i not in clears]
+            rep.need(starts, "%s never sets the thread-local stream" % fn)
+        for c in starts:
+            path = cfg.reach_exit_avoiding(F, c, avoid_nodes=clears) if clears else [F.block_of(c)]
+            n += 1
+            rep.ob("R10", "%s: the thread-local stream pointer is cleared on every path after %s" % (fn, F.nodes[c]["fn"]),
+                   path is None, "a return is reachable without ABTI_local_set_xstream(NULL) (blocks %s): this OS thread keeps naming "
+                   "a stream that no longer exists" % path, loc=F.loc(c), site="%s/clear-local" % fn)
+    rep.need(n >= 2, "only %d stream hand-backs found" % n)
+
+
 def run(P, rep, tier):
     common.rule_widths(P, rep, [('ABTI_global', 'num_xstreams'), ('ABTI_xstream', 'rank')])
     common.rule_X4(P, rep)
@@ -495,3 +518,4 @@ def run(P, rep, tier):
     rule_R7(P, rep)
     rule_R8(P, rep)
     common.borrow(rep, P, C06.rule_R1_R3_R4, "R9")
+    rule_R10(P, rep)
